@@ -475,6 +475,7 @@ func (x *rh) Observe() *seqmc.Fail {
 }
 
 func main() {
+	ev.GuardFor("C06")
 	r := ev.Start("C06")
 	r.SetDeadline(ev.Pick(r, 60*time.Second, 1500*time.Second))
 	H := ev.Pick(r, 3, 4)
